@@ -274,3 +274,15 @@ package idxfile
 //gvc:  ensures large: o32 >= 0x80000000 && err == nil ==> 8 * (o32 - 0x80000000) + 8 <= len(i.offset64)
 //gvc:  ensures reject: o32 >= 0x80000000 && 8 * (o32 - 0x80000000) + 8 > len(i.offset64) ==> err != nil
 //gvc:end
+
+// OnHeader (property C53: no allocation out of proportion to the input). The
+// object count comes straight from the 12-byte pack header, before a single
+// object has been read: what is reserved for it is bounded by a constant, the
+// list grows with the objects that really arrive.
+//gvc:func (*Writer).OnHeader
+//gvc:  props C53
+//gvc:  theory int
+//gvc:  opt alloc_cap 65536
+//gvc:  modifies w.count, w.objects
+//gvc:  ensures counted: w.count == count && result == nil
+//gvc:end
